@@ -59,6 +59,7 @@ def catalog():
         "pymodel": ("pymodel", 20, "python functions of the model files: no uninitialised memory, no state kept, no in-place update of their (persistent) arguments", __import__("sa.rules.extra3", fromlist=["x"]).rule_c11_pymodel),
         "intdiv": ("intdiv", 120, "no truncating division of two integer literals in any model unit (double-precision dll units and single-precision OpenCL units)", __import__("sa.rules.extra3", fromlist=["x"]).make_intdiv_rule(("dll", "opencl-f32"))),
         "fastpath": ("fastpath", 55, "equality-guarded special branches of model code agree with the general branch at the same point (all models)", __import__("sa.rules.extra3", fromlist=["x"]).rule_c14_fastpath),
+        "gauss-tables": ("gauss-tables", 9, "quadrature tables are Gauss-Legendre rules on [-1, 1] (weights sum to 2, mirror symmetry)", __import__("sa.rules.extra3", fromlist=["x"]).rule_gauss_tables),
         "drivers": ("drivers", 53, "dll/OpenCL/CUDA drivers agree on kernel arguments, result size, read-back, kernel selection and q layout", gpu.rule_drivers),
         "gpu": ("gpu", 2000, "OpenCL configuration of the kernels: work-item bound, carried q-point sums, gated accumulation (all units)", gpu.make_gpu_rule()),
         "eqvol": ("eqvol", 15, "equivalent-volume-sphere radius mode agrees with form_volume in every model", c14.make_c_rule("R-C14-eqvol")),
